@@ -72,16 +72,22 @@ func fedYAML(layout string, workerLimit, version int, extra, fedOpts string) str
 type FedConfig struct {
 	xeng.Config
 	Version int
+	// BuildOnly: the probe is generated, compiled and vetted, but no representations are sent to it (computed
+	// requires hand the required fields to the field's resolver as an argument instead of putting them on the
+	// entity, which the Entities model does not describe)
+	BuildOnly bool
 }
 
 var QuickConfigs = []FedConfig{
-	{xeng.Config{Name: "fed2,single-file,wl0", YAML: fedYAML("single-file", 0, 2, "", "")}, 2},
-	{xeng.Config{Name: "fed1,follow-schema,wl2,funcsyntax", YAML: fedYAML("follow-schema", 2, 1, "use_function_syntax_for_execution_context: true\n", "")}, 1},
+	{xeng.Config{Name: "fed2,single-file,wl0", YAML: fedYAML("single-file", 0, 2, "", "")}, 2, false},
+	{xeng.Config{Name: "fed1,follow-schema,wl2,funcsyntax", YAML: fedYAML("follow-schema", 2, 1, "use_function_syntax_for_execution_context: true\n", "")}, 1, false},
 }
 
 var ThoroughConfigs = append(append([]FedConfig{}, QuickConfigs...),
-	FedConfig{xeng.Config{Name: "fed2,single-file,wl1,explicit-requires", YAML: fedYAML("single-file", 1, 2, "", "    explicit_requires: true\n")}, 2},
-	FedConfig{xeng.Config{Name: "fed2,follow-schema,wl0,computed-requires", YAML: fedYAML("follow-schema", 0, 2, "call_argument_directives_with_null: true\n", "    computed_requires: true\n")}, 2},
+	// (explicit_requires is not among them: its populators are stubs the user has to write, there is nothing of
+	// gqlgen's to observe beyond the call)
+	FedConfig{xeng.Config{Name: "fed2,single-file,wl8,funcsyntax", YAML: fedYAML("single-file", 8, 2, "use_function_syntax_for_execution_context: true\n", "")}, 2, false},
+	FedConfig{xeng.Config{Name: "fed2,follow-schema,wl0,computed-requires", YAML: fedYAML("follow-schema", 0, 2, "call_argument_directives_with_null: true\n", "    computed_requires: true\n")}, 2, true},
 )
 
 // ParsePrelude: what the federation plugin adds at generation time, for the factory's own parse of the schema.
